@@ -1,7 +1,8 @@
 #!/bin/bash
-# convenience (not registered in MANIFEST): run every quick (or $1) check once, print exit codes
+# convenience (not registered in MANIFEST): run every quick (or $1) check once (or those listed in $2), print exit codes
 TIER=${1:-quick}
-for p in C01 C02 C03 C04 C06 C07 C09 C10 C11 C12 C13 C14 C15 C18 C19; do
+LIST=${2:-"C01 C02 C03 C04 C06 C07 C09 C10 C11 C12 C13 C14 C15 C18 C19"}
+for p in $LIST; do
   s=$(date +%s)
   out=$(./check $p --tier $TIER 2>&1); rc=$?
   e=$(( $(date +%s) - s ))
